@@ -1,8 +1,7 @@
 (* C18 -- x/ubi: records, the period gate of the end blocker, upsert / remove proposals.
    Written from x/ubi/abci.go, x/ubi/keeper/ubi.go, x/ubi/proposal_handler.go.
-   Only the default denomination matters: [books] maps a spending pool to its recorded balance of
-   it; [None] = the pool does not exist.  uint64 arithmetic wraps ([wrap64]); int64(uint64) is
-   [as_int64]. *)
+   Only the default denomination matters: [us_books] maps an existing spending pool to its
+   recorded balance of it.  uint64 arithmetic wraps ([wrap64]); int64(uint64) is [as_int64]. *)
 From Sekai Require Import Base.Prelude Base.Dec.
 
 Record urec := mkU {
@@ -17,7 +16,7 @@ Fixpoint uget {A} (k : Z) (l : list (Z * A)) : option A :=
   match l with [] => None | (k', v) :: r => if k' =? k then Some v else uget k r end.
 Fixpoint uset {A} (k : Z) (v : A) (l : list (Z * A)) : list (Z * A) :=
   match l with [] => [(k, v)] | (k', v') :: r => if k' =? k then (k, v) :: r else (k', v') :: uset k v r end.
-(* records are kept sorted by identifier (insertion keeps the order) *)
+(* records are kept sorted by identifier *)
 Fixpoint uins {A} (k : Z) (v : A) (l : list (Z * A)) : list (Z * A) :=
   match l with
   | [] => [(k, v)]
@@ -34,11 +33,80 @@ Definition ubi_due_exact (now : Z) (r : urec) : bool :=
   (u_last r + u_period r <? now) && ((u_end r =? 0) || (u_last r <? u_end r)).
 
 Definition ubi_amount (r : urec) : Z := as_int64 (u_amount r) * 1000000.
+Definition touch (now : Z) (r : urec) : urec :=
+  mkU (u_start r) (u_end r) now (u_amount r) (u_period r) (u_pool r) (u_dyn r).
 
-(* ProcessUBIRecord inside a cache context: [Ok None] = error, nothing written *)
-Definition ubi_process (now : Z) (r : urec) (s : ustate) : outcome (option ustate) :=
-  let r' := mkU (u_start r) (u_end r) now (u_amount r) (u_period r) (u_pool r) (u_dyn r) in
+(* ProcessUBIRecord inside a cache context: [Ok None] = error return, nothing written.
+   Result: the new state and the amount minted into the pool. *)
+Definition ubi_process (now id : Z) (r : urec) (s : ustate) : outcome (option (ustate * Z)) :=
+  let recs' := uset id (touch now r) (us_recs s) in
   let amt := ubi_amount r in
-  let recs' := fun id => uset id r' (us_recs s) in
-  fun_id_dummy <- Ok tt;
-  Ok None.
+  let pay (x : Z) : outcome (option (ustate * Z)) :=
+    if x <? 0 then Panic "negative coin amount"
+    else if x =? 0 then Ok None                      (* Coins{0ukex} is invalid: bank send fails *)
+    else match uget (u_pool r) (us_books s) with
+         | None => Ok None                           (* pool does not exist *)
+         | Some b => Ok (Some (mkUS recs' (uset (u_pool r) (b + x) (us_books s)) (us_minted s + x), x))
+         end in
+  if u_dyn r then
+    match uget (u_pool r) (us_books s) with
+    | None => Ok None
+    | Some b => if amt <=? b then Ok (Some (mkUS recs' (us_books s) (us_minted s), 0)) else pay (amt - b)
+    end
+  else pay amt.
+
+(* EndBlocker: records are read once, then processed in order *)
+Fixpoint ubi_loop (now : Z) (l : list (Z * urec)) (s : ustate) (paid : list (Z * Z)) : outcome (ustate * list (Z * Z)) :=
+  match l with
+  | [] => Ok (s, paid)
+  | (id, r) :: rest =>
+      if ubi_due now r then
+        do o <- ubi_process now id r s;
+        match o with
+        | Some (s', x) => ubi_loop now rest s' (paid ++ [(id, x)])
+        | None => ubi_loop now rest s paid
+        end
+      else ubi_loop now rest s paid
+  end.
+Definition ubi_endblock (now : Z) (s : ustate) : outcome (ustate * list (Z * Z)) :=
+  ubi_loop now (us_recs s) s [].
+
+(* UpsertUBIProposal.Apply *)
+Definition YEAR : Z := 31556952.
+Fixpoint ubi_sum (l : list (Z * urec)) (acc : Z) : outcome Z :=
+  match l with
+  | [] => Ok acc
+  | (_, r) :: rest =>
+      if u_period r =? 0 then Panic "integer divide by zero"
+      else ubi_sum rest (wrap64 (acc + wrap64 (u_amount r * YEAR) / u_period r))
+  end.
+Definition ubi_upsert (hardcap id : Z) (r : urec) (s : ustate) : outcome ustate :=
+  match uget (u_pool r) (us_books s) with
+  | None => Err "spending pool does not exist"
+  | Some _ =>
+      do sum <- ubi_sum (us_recs s) 0;
+      if u_period r =? 0 then Panic "integer divide by zero" else
+      if hardcap <? wrap64 (sum + wrap64 (u_amount r * YEAR) / u_period r) then Err "ubi sum overflows hardcap" else
+      Ok (mkUS (uins id (mkU (u_start r) (u_end r) (u_start r) (u_amount r) (u_period r) (u_pool r) false) (us_recs s))
+               (us_books s) (us_minted s))
+  end.
+Definition ubi_remove (id : Z) (s : ustate) : outcome ustate :=
+  match uget id (us_recs s) with
+  | None => Err "ubi record does not exist"
+  | Some _ => Ok (mkUS (udel id (us_recs s)) (us_books s) (us_minted s))
+  end.
+
+Inductive ubi_op : Type :=
+| UEndBlock
+| UUpsert (id : Z) (r : urec)
+| URemove (id : Z).
+
+(* one step: new state and the payments made (record, amount) *)
+Definition ubi_apply (hardcap now : Z) (o : ubi_op) (s : ustate) : outcome (ustate * list (Z * Z)) :=
+  match o with
+  | UEndBlock => ubi_endblock now s
+  | UUpsert id r => do s' <- ubi_upsert hardcap id r s; Ok (s', [])
+  | URemove id => do s' <- ubi_remove id s; Ok (s', [])
+  end.
+Definition ubi_step (hardcap : Z) (s : ustate) (e : Z * ubi_op) : ustate :=
+  match ubi_apply hardcap (fst e) (snd e) s with Ok (s', _) => s' | _ => s end.
